@@ -392,8 +392,8 @@ theorem run_alive (f : OnFailure) (s : PanicStrategy) (hfs : f = .ignored ∨ s 
 
 theorem acceptRun_spec (evs : List AcceptEv) (h : ∀ e ∈ evs, e ≠ .okSpawnFails) :
     ∀ st, st.running = true →
-      (evs.foldl acceptStep st).running = true ∧
-      (evs.foldl acceptStep st).spawned = st.spawned + evs.count .ok := by
+      (evs.foldl (acceptStep false) st).running = true ∧
+      (evs.foldl (acceptStep false) st).spawned = st.spawned + evs.count .ok := by
   induction evs with
   | nil => intro st hst; simp [hst]
   | cons e es ih =>
@@ -407,9 +407,18 @@ theorem acceptRun_spec (evs : List AcceptEv) (h : ∀ e ∈ evs, e ≠ .okSpawnF
       exact ⟨this.1, by omega⟩
     | err =>
       have := ih hes st hst
-      simp only [acceptStep, hst, if_true] at this ⊢
+      simp only [acceptStep, hst, if_true, Bool.false_eq_true, if_false] at this ⊢
       rw [List.count_cons_of_ne (by decide)]
       exact this
     | okSpawnFails => exact absurd rfl (h _ List.mem_cons_self)
+
+theorem acceptRun_stopped (x : Bool) (evs : List AcceptEv) (st : LoopState)
+    (h : st.running = false) : (evs.foldl (acceptStep x) st).running = false := by
+  induction evs generalizing st with
+  | nil => exact h
+  | cons e es ih =>
+    rw [List.foldl_cons]
+    apply ih
+    simp [acceptStep, h]
 
 end AcmedVerif.Tacd
